@@ -257,6 +257,16 @@ def check_properties_file(res, relpath):
         res.violation({"kind": "proof-break", "file": relpath, "log_tail": out[-3000:]}, found_input=False)
         return False
     ax = parse_assumptions(out)
+    if getattr(res, "tier", "quick") == "thorough":
+        # independent re-check of the compiled property module and everything it depends on
+        mod = "GV." + relpath[len("theories/"):-2].replace("/", ".")
+        with Lock("coq"):
+            p = run(["coqchk", "-silent", "-o", "-Q", "theories", "GV", mod], cwd=COQ, timeout=7200)
+        chk = (p.stdout or "") + (p.stderr or "")
+        res.coverage["coqchk"] = {"module": mod, "exit": p.returncode, "summary": [l.strip() for l in chk.splitlines() if l.strip()][-14:]}
+        if p.returncode != 0:
+            res.violation({"kind": "proof-break", "file": relpath, "what": "coqchk rejects the compiled property module", "log_tail": chk[-3000:]}, found_input=False)
+            return False
     res.discharged += len(thms)
     res.coverage["theorems"] = [{"name": t, "axioms": (ax[i] if i < len(ax) else None)} for i, t in enumerate(thms)]
     res.coverage["print_assumptions_verbatim"] = [l for l in out.splitlines() if l.strip()][:200]
